@@ -1,6 +1,7 @@
 package drv
 
 import (
+	"os"
 	"context"
 	"encoding/base64"
 	"fmt"
@@ -25,8 +26,10 @@ type NtScript struct {
 	Actions []map[string]interface{} `json:"actions"`
 }
 
+// alice's password contains characters that mean something to shells, templates and formatters: a password is an
+// opaque string, what is configured is what has to be proven
 const (
-	NtAlicePw = "alice-secret-pw"
+	NtAlicePw = "alice-$ecret$$pw-${HOME}-%s {{x}}"
 )
 
 const NtBobPw = "bob-other-secret-pw"
@@ -155,6 +158,13 @@ func RunNtlm(s *NtScript, tw *TraceWriter, rng *rand.Rand, conn *grpc.ClientConn
 			}
 			if pw == "wrong" {
 				pass = pass + "-wrong"
+			}
+			if pw == "near" {
+				// a wrong password: the configured one as it reads after environment-style expansion
+				pass = os.ExpandEnv(pass)
+				if pass == NtUsers()[u] {
+					pass += "x"
+				}
 			}
 			cl := &ntlm.V2ClientSession{}
 			if pw == "asbob" {
